@@ -33,6 +33,8 @@ def specAdd (b : Ts) (off : Int) (r : Nat) : String :=
 def parseTimeOp (tok : String) : Option TimeOp :=
   match tok.splitOn ":" with
   | ["q", ts, h, o] => do some (.qr (← parseTs ts) (h == "1") (o == "1"))
+  | ["Q", ts, _, o] => do some (.qrItem (← parseTs ts) (o == "1"))
+  | ["M", ts, _, o] => do some (.mmItem (← parseTs ts) (o == "1"))
   | ["m", ts, e, o] => do some (.mm (← parseTs ts) (e == "1") (o == "1"))
   | ["c"] => some .clear
   | _ => none
